@@ -271,6 +271,13 @@ fn cmd_hashes(args: &[String]) {
     let thorough = args.get(6).map(String::as_str) == Some("thorough");
     let reverse = args.get(7).map(String::as_str) == Some("reverse");
     start_watchdog(120);
+    // prefix=<index>: first execute another case in this process (its result is discarded), so
+    // that the cases that follow run in a process with an unrelated history
+    if let Some(pi) = args.get(7).and_then(|a| a.strip_prefix("prefix=")).and_then(|v| v.parse::<u64>().ok()) {
+        let seed = case_seed(base, prop, pi);
+        let plans = props::generate(prop, &props::GenCtx { seed, index: pi, thorough });
+        let _ = run_case(&plans);
+    }
     let idx: Vec<u64> = if reverse {
         (first..first + count).rev().collect()
     } else {
